@@ -905,8 +905,14 @@ class C10(fw.Prop):
             "whose names mostly coincide (different versions, or wholly equal headers) and 1-4 definition objects "
             "added to them in random or every-object-to-every-extension patterns, observed per Extension object: "
             "document, its round trip, and for each held operation the index of the Extension object that "
-            "get_extension() returns (by identity).  non-trivial = at least one operation with a signature, or an "
-            "error result; for worlds: an operation object reaches two different Extension objects of one name")
+            "get_extension() returns (by identity); 30 more worlds in which every Extension object is serialised between "
+            "steps.  Sessions on ONE Extension object (90): a history cut into 1-5 segments with an observation point after "
+            "each (document, load-and-write, owners, header, and the object itself read through its public attributes) "
+            "through Extension.to_json/from_json, _to_serial + the serial model, or a Package holding the extension, "
+            "continuing on the same or on the loaded object; half of them focused: point, ONE definition of a chosen "
+            "kind (type / op / value), point.  non-trivial = at least one operation with a signature, or an "
+            "error result; for worlds: an operation object reaches two different Extension objects of one name; for "
+            "sessions: something is added after a document was written")
     trusted = [
         "type expressions, constant values and misc values are payloads compared structurally in hugr-py's own "
         "serial form (the type/value codec is property C05); the theorems carry the codec's fixed-point law "
